@@ -75,6 +75,25 @@ def ob_air_array(which, n):
                       solver_timeout_ms=300000, purify_div=False, incremental_ms=2000, fresh_strategy='rlimit-first')
 
 
+def ob_air_0d(which):
+    """a wavelength that is a NumPy scalar or a 0-d array (what indexing an array gives) is a float too"""
+    def fn(ctx):
+        from pydl.goddard.astro import airtovac, vactoair
+        f = airtovac if which == 'a2v' else vactoair
+        w = ctx.real('w')
+        ctx.add(z3.And(zt(w) >= 1400, zt(w) <= 300000))
+        d = {'fn': 'air_0d', 'which': which}
+        ctx.detail = d
+        arr = np.empty((), dtype=object)
+        arr[()] = w
+        out = f(arr)
+        ref = f(w)
+        got = out[()] if isinstance(out, np.ndarray) else out
+        ctx.require(zt(R.lift(got)) == zt(R.lift(ref)), '0-d array / NumPy scalar form agrees with the float form', d)
+    return Obligation('air/vacuum 0-d %s' % which, fn, bounds='one wavelength in [1400 A, 30 micron] held in a 0-d array',
+                      solver_timeout_ms=300000, purify_div=False, incremental_ms=2000, fresh_strategy='rlimit-first')
+
+
 def ob_air_intarray(which, n):
     """integer-typed wavelength arrays (a spectrum's integer Angstrom grid) must give the float answer too"""
     def fn(ctx):
@@ -191,6 +210,7 @@ def obligations(tier, seed):
     obs = [ob_air_scalar('a2v'), ob_air_scalar('v2a')]
     for which in ('a2v', 'v2a'):
         obs.append(ob_air_intarray(which, 1))
+        obs.append(ob_air_0d(which))
         obs.append(ob_air_array(which, 2))
         if not q:
             obs.append(ob_air_array(which, 3))
@@ -243,6 +263,14 @@ def replay(rec):
         if (ws != keep).any():
             return True
         return any(abs(out[i] - f(float(keep[i]))) > 1e-9 * max(1.0, abs(keep[i])) for i in range(d['n']))
+    if fn == 'air_0d':
+        from pydl.goddard.astro import airtovac, vactoair
+        f = airtovac if d['which'] == 'a2v' else vactoair
+        w = _f(inp.get('w', 5000.0))
+        bad = False
+        for form in (np.array(w), np.float64(w)):          # an exception = reproduced for 'exception:' labels
+            bad = bad or abs(float(f(form)) - f(w)) > 1e-9 * max(1.0, abs(w))
+        return bool(bad)
     if fn == 'air_intarray':
         from pydl.goddard.astro import airtovac, vactoair
         f = airtovac if d['which'] == 'a2v' else vactoair
